@@ -82,10 +82,10 @@ strListGetItem(const String * str, char del, const char **item, int *ilen, const
      * processing merged header values properly, even if Cookie normally
      * uses ';' as delimiter.
      */
-    static char delim[3][8] = {
+    static char delim[3][10] = {
         "\"?,",
         "\"\\",
-        " ?,\t\r\n"
+        " ?,\t\r\n\v\f" // all xisspace() characters, which the rtrim below removes
     };
     int quoted = 0;
     assert(str && item && pos);
